@@ -11,6 +11,9 @@ Local Open Scope Z_scope.
 
 Definition exponent_budget : Z := 1000000000.
 
+Arguments within : simpl never.
+Arguments bind_b : simpl never.
+
 Lemma vbound_to_number : forall B v d, vbound B v = true -> to_number v = Ok d -> Z.abs (dexp d) <= B.
 Proof.
   intros B. fix IH 1. intros v d Hb Hn. destruct v; simpl in Hb, Hn; try discriminate.
@@ -82,14 +85,142 @@ Proof.
     unfold with_arg. simpl.
     destruct (to_array v0) as [items|] eqn:Ea; [|exact I].
     destruct (to_function v1) as [g|]; [|exact I].
-    apply with_rest_ok; [simpl; lia|]. intros other Ho.
+    rewrite with_rest_skipn by (simpl; lia). simpl skipn.
+    inversion HF as [|? ? Hv0 HF1]; subst. inversion HF1 as [|? ? Hv1 Hrest]; subst.
     assert (Hitems : Forall vb items).
-    { inversion HF as [|? ? Hv0 _]; subst. destruct v0; simpl in Ea; try discriminate.
+    { destruct v0; simpl in Ea; try discriminate.
       - injection Ea as <-. constructor.
       - injection Ea as <-. apply vb_array_items. assumption. }
-    assert (Hother : Forall vb other).
-    { unfold with_rest in *. admit_placeholder. }
-    apply foreach_items_ok. intros item. admit_placeholder.
+    apply foreach_items_in_ok. intros item Hin. apply IH; [simpl in *; lia|].
+    constructor; [|assumption]. rewrite Forall_forall in Hitems. apply Hitems. assumption.
+Qed.
+
+Lemma eval_binop_bounded : forall op x y, vb x -> vb y -> ok false (eval_binop frac_pow op x y).
+Proof.
+  intros op x y Hx Hy. destruct op; try (apply eval_binop_no_panic; discriminate).
+  - apply divide_full; apply vbound_arg_exp_ok; assumption.
+  - simpl. unfold numerical_binary.
+    destruct (to_number x) as [n1|]; [|exact I]. destruct (to_number y) as [n2|]; [|exact I].
+    unfold pow_body. cbv zeta.
+    destruct (exponent_out_of_range (dexp (dec_canonical n1) * dec_trunc (dec_canonical n2))) eqn:E; [exact I|].
+    destruct (_ && _); [exact I|]. destruct (_ && _); [exact I|]. apply dec_pow_ok; [|assumption].
+    intros _ whole. destruct (frac_pow _ _ whole) as [c|] eqn:Ef; [|exact I]. exfalso. exact (Hfrac _ _ _ _ Ef).
+Qed.
+
+(* the budgeted evaluator: never a panic, never out of fuel; and every value it returns is within budget *)
+Definition good (r : option res) : Prop :=
+  match r with
+  | None => True
+  | Some (Ret v) => vb v
+  | Some _ => False
+  end.
+
+Lemma within_good : forall r, ok false r -> good (within exponent_budget r).
+Proof.
+  intros [v|c|] H; unfold within; simpl in *; try contradiction.
+  - destruct (vbound exponent_budget v) eqn:E; simpl; [exact E|exact I].
+  - destruct c; contradiction || discriminate.
+Qed.
+
+Lemma bind_b_good : forall r k, good r -> (forall v, vb v -> good (k v)) -> good (bind_b exponent_budget r k).
+Proof. intros [[v|c|]|] k H Hk; unfold bind_b; simpl in *; try contradiction; auto. Qed.
+
+Theorem eval_b_good : forall ctx e, good (eval_b exponent_budget ctx e).
+Proof.
+  intros ctx e. induction e using expr_ind_nested; simpl.
+  - apply within_good. exact I.
+  - apply within_good. destruct (scope_get lookup_function ctx n); exact I.
+  - apply bind_b_good; [assumption|]. intros cv Hc. apply within_good.
+    destruct (is_err cv); [exact I|apply resolve_lookup_ok].
+  - apply bind_b_good; [assumption|]. intros cv Hc. destruct (is_err cv); [exact Hc|].
+    apply bind_b_good; [assumption|]. intros lv Hl. apply within_good.
+    destruct (is_err lv); [exact I|apply resolve_lookup_ok].
+  - apply bind_b_good; [assumption|]. intros fv Hf. destruct (is_err fv); [exact Hf|].
+    destruct fv; try reflexivity.
+    assert (Hacc : Forall vb (@nil value)) by constructor. revert Hacc.
+    generalize (@nil value). induction H as [|p r Hp Hr IHr]; intros acc Hacc.
+    + apply within_good. unfold ExEval.call_function. apply call_bounded; [lia|].
+      apply Forall_rev. assumption.
+    + apply bind_b_good; [assumption|]. intros pv Hpv. apply IHr. constructor; assumption.
+  - apply bind_b_good; [assumption|]. intros v Hv. apply within_good. apply eval_neg_ok.
+  - apply bind_b_good; [assumption|]. intros av Ha. apply bind_b_good; [assumption|]. intros bv Hb.
+    apply within_good. apply eval_binop_bounded; assumption.
 Qed.
 
 End Budget.
+
+(* within budget the two evaluators are the same *)
+Section Agree.
+
+Variable wclass : N -> N.
+Variable regex_submatch : text -> text -> option (list text).
+Variable ext_call : N -> list value -> res.
+Variable frac_pow : dec -> dec -> dec -> pclass + dec.
+Variable lookup_function : text -> option fname.
+Notation eval := (eval wclass regex_submatch ext_call frac_pow lookup_function).
+Notation eval_b := (eval_b wclass regex_submatch ext_call frac_pow lookup_function).
+
+Lemma within_some : forall B r r', within B r = Some r' -> r = r'.
+Proof.
+  intros B r r' H. unfold within in H. destruct r as [v|c|].
+  - destruct (vbound B v); [|discriminate]. congruence.
+  - congruence.
+  - congruence.
+Qed.
+
+Lemma bind_b_some : forall B ro k r r0 k0,
+  bind_b B ro k = Some r -> (forall x, ro = Some x -> r0 = x) -> (forall v x, k v = Some x -> k0 v = x) ->
+  bind r0 k0 = r.
+Proof.
+  intros B ro k r r0 k0 H Hr Hk. destruct ro as [[v|c|]|]; unfold bind_b in H; simpl in H; try discriminate.
+  - rewrite (Hr _ eq_refl). simpl. apply (Hk _ _ H).
+  - rewrite (Hr _ eq_refl). injection H as <-. reflexivity.
+  - rewrite (Hr _ eq_refl). injection H as <-. reflexivity.
+Qed.
+
+Theorem eval_b_agrees : forall B ctx e r, eval_b B ctx e = Some r -> eval ctx e = r.
+Proof.
+  intros B ctx e. induction e using expr_ind_nested; intros r Hr; simpl in *.
+  - apply within_some in Hr. assumption.
+  - apply within_some in Hr. assumption.
+  - eapply bind_b_some; [exact Hr|exact IHe|]. intros v x Hx. cbv beta in *. apply within_some in Hx. assumption.
+  - eapply bind_b_some; [exact Hr|exact IHe1|]. intros v x Hx. cbv beta in *.
+    destruct (is_err v); [congruence|].
+    eapply bind_b_some; [exact Hx|exact IHe2|]. intros v' x' Hx'. cbv beta in *. apply within_some in Hx'. assumption.
+  - eapply bind_b_some; [exact Hr|exact IHe|]. intros fv x Hx. cbv beta in *.
+    destruct (is_err fv); [congruence|].
+    destruct fv; try congruence.
+    clear Hr. revert x Hx. generalize (@nil value). induction H as [|p ps Hp Hps IHps]; intros acc x Hx.
+    + apply within_some in Hx. assumption.
+    + eapply bind_b_some; [exact Hx|exact Hp|]. intros pv x' Hx'. cbv beta in Hx' |- *. eapply IHps. exact Hx'.
+  - eapply bind_b_some; [exact Hr|exact IHe|]. intros v x Hx. cbv beta in *. apply within_some in Hx. assumption.
+  - eapply bind_b_some; [exact Hr|exact IHe1|]. intros av x Hx. cbv beta in *.
+    eapply bind_b_some; [exact Hx|exact IHe2|]. intros bv x' Hx'. cbv beta in *. apply within_some in Hx'. assumption.
+Qed.
+
+(* the statement: a panic (of ANY class) of the evaluator means the exponent budget was exceeded *)
+Theorem eval_panic_exceeds_budget :
+  ext_total ext_call -> frac_pow_total frac_pow ->
+  forall ctx e, (exists c, eval ctx e = Panic c) \/ eval ctx e = NoFuel -> eval_b exponent_budget ctx e = None.
+Proof.
+  intros Hext Hfrac ctx e Hp.
+  pose proof (eval_b_good wclass regex_submatch ext_call frac_pow lookup_function Hext Hfrac ctx e) as Hg.
+  destruct (eval_b exponent_budget ctx e) as [r|] eqn:E; [|reflexivity]. exfalso.
+  apply eval_b_agrees in E. rewrite E in Hp. destruct r as [v|c|]; simpl in Hg; try contradiction.
+  destruct Hp as [[c Hc]|Hc]; discriminate.
+Qed.
+
+End Agree.
+
+(* the budget is not vacuous: ordinary evaluations stay within it *)
+Example budget_not_vacuous :
+  eval_b (fun _ => 0%N) (fun _ _ => None) (fun _ _ => NoFuel) (fun _ _ _ => inr (Dec 0 0)) (fun _ => None)
+         exponent_budget [] (EBin ODiv (ELit (VNum (Dec 1 0))) (ELit (VNum (Dec 3 0))))
+  = Some (Ret (VNum (Dec 3333333333333333 (-16)))).
+Proof. vm_compute. reflexivity. Qed.
+
+Example budget_hypotheses_satisfiable :
+  exists (ext : N -> list value -> res) (fp : dec -> dec -> dec -> pclass + dec), ext_total ext /\ frac_pow_total fp.
+Proof.
+  exists (fun _ _ => Ret VNil), (fun _ _ _ => inr (Dec 0 0)). split; [intros id args; exact I|intros x y w c H; discriminate].
+Qed.
